@@ -333,7 +333,7 @@ var strPool = []string{"", "abc", "ABC", "aBc", "ab", "bc", "b", "a b", " abc", 
 	"1.10.0", "1.9.0", "1.0.0-alpha", "1.0.0", "1.0.0-2", "1.0.0-10", "1.0.0+build.1", "1.0.0+build.2", "Doe, John", "y,z", ","}
 
 // bodies whose proper prefixes are also suffixes / infixes of them
-var overlapPool = []string{"aab", "abab", "aaba", "cocola", "bingbot", "abcabd", "ÉéÉx", "aAb", "xyxyz", "aa", "abaab", "ßßs", "1.1.0", "a a b"}
+var overlapPool = []string{"path[0]", "a_b", "x@y", "a^b", "{k}", "a|b", "p~q", "x`y", "aab", "abab", "aaba", "cocola", "bingbot", "abcabd", "ÉéÉx", "aAb", "xyxyz", "aa", "abaab", "ßßs", "1.1.0", "a a b"}
 
 // bodies with the escape sequences the grammar allows (the engine keeps them verbatim: no unescaping). Used for the
 // elements of string lists only: C04 leaves literals with backslashes outside its claim.
@@ -947,6 +947,22 @@ func nearValue(r *RNG, leaf *Node, idc *int) *AV {
 			}
 			s = pick(r, strPool)
 		case 10:
+			if r.Chance(1, 2) {
+				// one ASCII byte with bit 0x20 flipped: the other case of a letter - or, for `@[\]^_` and their
+				// partners, a different character that a hand-written ASCII case fold may confuse with it
+				bs := []byte(body)
+				var idx []int
+				for i, b := range bs {
+					if b >= 0x40 && b < 0x80 {
+						idx = append(idx, i)
+					}
+				}
+				if len(idx) > 0 {
+					bs[idx[r.Intn(len(idx))]] ^= 0x20
+					s = string(bs)
+					break
+				}
+			}
 			// invalid UTF-8 around the body
 			s = body + "\xff"
 		default:
